@@ -312,6 +312,28 @@ class _Flow:
         return self.effects(st, S)
 
 
+GETTERS = {"created_at": "created", "updated_at": "updated"}
+
+
+def _getter_body(fn):
+    """the body of a `created_at` / `updated_at` getter: ("parsesStored", "created"|"updated") when it is exactly
+    `return util.str_to_time(<the stored attribute>)` — no state in the Python object —, ("other",) otherwise"""
+    body = _strip_doc(fn.body)
+    if len(body) == 1 and isinstance(body[0], ast.Return) and _is_util_call(body[0].value, "str_to_time", 1):
+        x = body[0].value.args[0]
+        # self._h5group.get_attr("created_at")
+        if (isinstance(x, ast.Call) and isinstance(x.func, ast.Attribute) and x.func.attr == "get_attr"
+                and (_is_self_attr_chain(x.func.value, ["_h5group"]) or _is_self_attr_chain(x.func.value, ["_h5dataset"]))
+                and len(x.args) == 1 and not x.keywords and isinstance(x.args[0], ast.Constant)
+                and x.args[0].value in GETTERS):
+            return ("parsesStored", GETTERS[x.args[0].value])
+        # self._h5file.attrs["created_at"]
+        if (isinstance(x, ast.Subscript) and _is_self_attr_chain(x.value, ["_h5file", "attrs"])
+                and isinstance(x.slice, ast.Constant) and x.slice.value in GETTERS):
+            return ("parsesStored", GETTERS[x.slice.value])
+    return ("other",)
+
+
 def _analyse_function(cls, fn, lookup):
     """-> sorted list of outcomes (exit, touch) of one method"""
     body = _strip_doc(fn.body)
@@ -381,6 +403,7 @@ def scan_repo(repo):
     mro = {c: _c3(c, classes, memo) for c in order}
     # summaries of the methods of every class, iterated to a fixpoint (a method may run another one through `self`)
     summ = {}      # (cls, name, is_setter) -> (frozenset normal touches, frozenset raising touches)
+    getters = {}   # (cls, "created_at"|"updated_at") -> body shape
 
     def analyse_all():
         results = {}
@@ -395,6 +418,8 @@ def scan_repo(repo):
                 if "property" in decs:
                     if any(isinstance(n, ast.If) and _is_auto_test(n.test) for n in ast.walk(m)):
                         raise ExtractError("%s.%s: a getter contains the auto-update idiom" % (c, m.name))
+                    if m.name in GETTERS:
+                        getters[(c, m.name)] = _getter_body(m)
                     continue
                 is_setter = any(d.endswith(".setter") for d in decs)
                 if m.name in FORCE and not is_setter:
@@ -431,7 +456,7 @@ def scan_repo(repo):
             raise ExtractError("%s.%s defined twice" % (c, n))
         seen.add((c, n))
         members.append((c, n, k, outs))
-    return classes, order, members, mro
+    return classes, order, members, mro, getters
 
 
 def _mem_id(n):
@@ -439,7 +464,7 @@ def _mem_id(n):
 
 
 def extract(repo):
-    classes, order, members, mro = scan_repo(repo)
+    classes, order, members, mro, getters = scan_repo(repo)
     memnames = []
     for _, n, _, _ in members:
         if n not in memnames:
@@ -494,6 +519,26 @@ def extract(repo):
     for c, n, k, outs in members:
         rows.append("  ⟨.%s, .%s, .%s, [%s]⟩" % (c, _mem_id(n), k, ", ".join("⟨.%s, .%s⟩" % o for o in outs)))
     L.append(",\n".join(rows))
+    L.append("]")
+    L.append("")
+    L.append("/-- the two time stamp attributes -/")
+    L.append("inductive StampAttr where | created | updated")
+    L.append("  deriving DecidableEq, Repr")
+    L.append("/-- body of a `created_at` / `updated_at` getter: exactly `return util.str_to_time(<stored attribute a>)`")
+    L.append("(the Python object keeps no copy), or anything else -/")
+    L.append("inductive GetterBody where | parsesStored (a : StampAttr) | other")
+    L.append("  deriving DecidableEq, Repr")
+    L.append("structure StampGetter where")
+    L.append("  cls : Cls")
+    L.append("  attr : StampAttr")
+    L.append("  body : GetterBody")
+    L.append("  deriving DecidableEq, Repr")
+    L.append("")
+    L.append("def stampGetters : List StampGetter := [")
+    grows = []
+    for (c, n), b in getters.items():
+        grows.append("  ⟨.%s, .%s, %s⟩" % (c, GETTERS[n], ".parsesStored .%s" % b[1] if b[0] == "parsesStored" else ".other"))
+    L.append(",\n".join(grows))
     L.append("]")
     L.append("")
     L.append("/-- Python's method resolution order (C3), restricted to the classes above -/")
